@@ -230,7 +230,18 @@ func c11Tuple(in map[string]any) map[string]any {
 		return rel.NewTuple(attrs...)
 	}
 	obsTuple := func(t, other rel.Tuple, which int) string {
-		switch which % 3 {
+		switch which % 4 {
+		case 3:
+			// t :> \v v, taken while other goroutines make the first use of t's sorted-name cache: the mapped tuple
+			// has the same heading, printed in the same order
+			m, err := t.Map(func(v rel.Value) (rel.Value, error) { return v, nil })
+			if err != nil {
+				return "err"
+			}
+			if g, ok := m.(*rel.GenericTuple); ok {
+				return fmt.Sprint(rel.TupleOrderedNames(g), m.Names().OrderedNames(), m.String())
+			}
+			return fmt.Sprint(m.Names().OrderedNames(), m.String())
 		case 0:
 			return fmt.Sprint(t.Names().OrderedNames())
 		case 1:
@@ -252,19 +263,19 @@ func c11Tuple(in map[string]any) map[string]any {
 	hang := false
 	for r := 0; r < rounds && !hang; r++ {
 		t0, o0 := mk(0), mk(1)
-		want := [3]string{obsTuple(t0, o0, 0), obsTuple(t0, o0, 1), obsTuple(t0, o0, 2)}
+		want := [4]string{obsTuple(t0, o0, 0), obsTuple(t0, o0, 1), obsTuple(t0, o0, 2), obsTuple(mk(0), o0, 3)}
 		t1, o1 := mk(0), mk(1)
-		got := make([][3]string, n)
+		got := make([][4]string, n)
 		if !parallel(n, 30*time.Second, func(g int) {
-			for k := 0; k < 3; k++ {
-				i := (k + g) % 3
+			for k := 0; k < 4; k++ {
+				i := (k + g) % 4
 				got[g][i] = obsTuple(t1, o1, i)
 			}
 		}) {
 			hang = true
 		}
 		for g := 0; g < n && !hang; g++ {
-			for i := 0; i < 3; i++ {
+			for i := 0; i < 4; i++ {
 				evals++
 				if got[g][i] != want[i] && len(bad) < 5 {
 					bad = append(bad, mismatch{r, g, fmt.Sprint("tuple-op-", i), clip(got[g][i]), clip(want[i])})
